@@ -33,6 +33,9 @@ def gen_scaffolds(rng, bpt, fasta_backed=True, n=None, hap_prefix=None, edge_gap
             name = rng.choice(["SCAFFOLD_", "scaffold_", "ctg", "s"]) + str(k + 1)
             if fasta_backed and edge_gaps_ok and rng.random() < 0.04:
                 name = "#" + name  # legal FASTA name that AGP reads as a comment
+            elif rng.random() < 0.05:
+                # a name that itself looks like a region (TPF spells fragments name:start-end)
+                name = name + rng.choice([":1001-4000", ":7-9", "-3:12-20", ":1-2:3-4"])
         texels = rng.choice([1, 3, 4, 6, 8, 10, 14, 20, 30, 45])
         target = max(1, int(texels * bpt + rng.randint(-int(bpt) // 2, int(bpt) // 2)))
         if rng.random() < 0.1:
